@@ -200,6 +200,369 @@ def validate_scheme():
                 handlers_unreadable=unreadable, rate=round(same / max(1, total), 4), not_reproduced=detail)
 
 
+# ------------------------------------------------------------------------------------------------ program generators
+# Trees are nested Python lists in exactly the S-expression shape of lean/Drx/Spec/Ast.lean:
+#   ['i', 5] ['s', S("abc")] ['f', 3001, 3] ['y', name] ['l'|'p'|'g'|'r', name] 'me' ['b', op, A, B] ['u', op, A] ['fld', A]
+#   ['c', f, args...] ['m', OBJ, meth, args...] ['li', ...] ['pl', k, v, ...] ['the', tbl, k, args...] ['key', n] ['mov', n]
+#   ['op', n, OBJ] ['ch', kind, A, B, OF]
+#   statements: ['set', LV, V] ['put', mode, V, LV] ['del', T] ['hil', T] ['call', f, args...] ['mcall', OBJ, m, args...] 'exit'
+#   ['tell', OBJ, S...] ['if', C, [S...], [S...]] ['while', C, S...] ['with', V, A, B, 'up'|'down', S...] ['in', V, L, S...] 'exitrep'
+
+BINOPS = ["mul", "add", "sub", "div", "mod", "concat", "concats", "lt", "le", "ne", "eq", "gt", "ge", "and", "or",
+          "contains", "starts", "intersects", "within"]
+UNOPS = ["neg", "not"]
+
+SPRITE_K = list(range(1, 35))
+CAST_K = [1, 2, 3, 4, 5, 6, 7, 8, 9, 10, 11, 17, 18]
+VIDEO_K = [12, 13, 14, 15, 16]
+SYS_K = [1, 2, 3, 4, 5, 6, 8, 9, 10, 11, 0x13, 0x17, 0x18, 0x19, 0x1a, 0x1b, 0x1d, 0x1e, 0x1f, 0x20, 0x21, 0x22]
+KEY_NAMES = ["commandDown", "shiftDown", "controlDown", "optionDown", "key", "keyCode", "stillDown", "date", "time",
+             "labelList", "lastClick", "lastEvent", "lastKey", "lastRoll", "machineType", "mouseCast", "mouseChar", "mouseDown",
+             "mouseH", "mouseItem", "mouseLine", "mouseUp", "mouseV", "mouseWord", "doubleClick", "clickOn", "movie", "pathName",
+             "movieFileSize", "movieFileFreeSize", "pauseState", "result", "selection", "stageBottom", "stageLeft", "stageRight",
+             "stageTop", "ticks", "maxinteger", "multiSound"]
+MOVIE_NAMES = ["actorList", "itemDelimiter", "frameLabel", "updateMovieEnabled", "cpuHogTicks", "romanLingo", "traceLoad",
+               "traceLogFile", "movieName", "moviePath", "fooProp", "barProp"]
+EXT_FUNCS = ["random", "length", "offset", "rect", "point", "script", "objectp", "label", "marker", "abs", "string", "value",
+             "getProp", "count2", "soundBusy", "window", "birth2", "myFunc", "otherFunc"]
+EXT_CMDS = ["put", "beep", "updateStage", "puppetTempo", "installMenu", "addProp", "deleteProp", "open", "nothing", "pause",
+            "go", "alert", "doIt", "append", "return"]
+SYMS = ["name", "surname", "StackUnderflow", "alpha", "beta", "mname", "mget", "zz9"]
+METHODS = ["mReset", "mPush", "mPop", "mget", "mput", "mname", "mShow"]
+STRINGS = ["", "a", "hello", "Hello world!", "x y", "it's", "100%", "a,b;c", "(paren)", "[br]", "#hash", "-- not a comment", "- -",
+           "val=", "3.5", "the of to", "end", "\r", "\t", "\x08", "\x03", "\""]
+INTS = [0, 1, 2, 5, 9, 10, 42, 100, 127, 128, 129, 255, 256, 1000, 32767, 32768, 65535, 65536, 70000, 2147483647]
+FLOATS = [(30, 1), (5, 1), (3001, 3), (15, 1), (25, 2), (1, 1), (125, 3), (100001, 2), (314159, 5), (12345678, 4), (7, 3)]
+LOCALS = ["x", "y", "z", "myVar", "counter", "tmp", "val", "aList", "str1", "idx"]
+PARAMS = ["a", "b", "c", "whichObject", "n1"]
+GLOBALS = ["gList", "gCount", "myGlobal", "gFlag", "gName"]
+PROPS = ["legCount", "wingCount", "myLength", "myMaster", "pSpeed"]
+JUNK_NAMES = ["¬", "café", "", " ", "two words", "x" * 40, "123", "the", "end", "ÿþ", "-", "\"q\"", "exitFrame", "startMovie"]
+
+
+class Gen:
+    """random programs; every choice comes from the one rng"""
+
+    def __init__(self, rng, kind="plain"):
+        self.rng = rng
+        self.kind = kind            # plain | props | factory
+        self.globals_hdr = []
+        self.props = []
+        self.handlers = []          # handler names of the script (for local calls)
+
+    # ---- leaves
+    def leaf(self, env, k=None):
+        r = self.rng
+        kinds = ["int", "int", "str", "float", "sym", "loc", "loc", "param", "glob", "key", "mov", "the0"]
+        if env.get("props"):
+            kinds += ["prop", "prop"]
+        if env.get("method"):
+            kinds.append("me")
+        k = k or r.choice(kinds)
+        if k == "int":
+            return ["i", r.choice(INTS)]
+        if k == "str":
+            return ["s", S(r.choice(STRINGS))]
+        if k == "float":
+            d, s_ = r.choice(FLOATS)
+            return ["f", d, s_]
+        if k == "sym":
+            return ["y", r.choice(SYMS)]
+        if k == "loc":
+            return ["l", r.choice(env["locals"])]
+        if k == "param":
+            return ["p", r.choice(env["params"])] if env["params"] else ["l", r.choice(env["locals"])]
+        if k == "glob":
+            return ["g", r.choice(env["globals"])]
+        if k == "prop":
+            return ["r", r.choice(env["props"])] if env.get("props") else ["l", r.choice(env["locals"])]
+        if k == "me":
+            return "me" if env.get("method") else ["l", r.choice(env["locals"])]
+        if k == "key":
+            return ["key", r.choice(KEY_NAMES)]
+        if k == "mov":
+            return ["mov", r.choice(MOVIE_NAMES)]
+        if k == "the0":
+            c = r.random()
+            if c < 0.35:
+                return ["the", "special", r.randrange(0, 12)]
+            if c < 0.8:
+                return ["the", "sys", r.choice(SYS_K)]
+            return ["the", "count", r.choice([1, 2, 3])]
+        raise ValueError(k)
+
+    def index_leaf(self, env):
+        """an object index the translator is expected to keep: literal or variable"""
+        r = self.rng
+        c = r.random()
+        if c < 0.5:
+            return ["i", r.choice([1, 2, 3, 7, 48, 120, 200, 1000])]
+        if c < 0.65:
+            return ["s", S(r.choice(["Fish.mov", "button", "a b"]))]
+        return self.leaf(env, r.choice(["loc", "param", "glob"]))
+
+    def obj_index(self, env, depth):
+        """object index: mostly literal/variable, sometimes an arbitrary expression (property C02 quantifies over those too)"""
+        if depth > 0 and self.rng.random() < 0.25:
+            return self.expr(env, depth - 1)
+        return self.index_leaf(env)
+
+    # ---- expressions
+    def expr(self, env, depth):
+        r = self.rng
+        if depth <= 0 or r.random() < 0.18:
+            return self.leaf(env)
+        c = r.random()
+        d = depth - 1
+        if c < 0.34:
+            return ["b", r.choice(BINOPS), self.expr(env, d), self.expr(env, d)]
+        if c < 0.42:
+            return ["u", r.choice(UNOPS), self.expr(env, d)]
+        if c < 0.46:
+            return ["fld", self.expr(env, d)]
+        if c < 0.56:
+            f = r.choice(EXT_FUNCS + [h for h in self.handlers][:3])
+            n = r.choice([0, 1, 1, 2, 3]) if f in self.handlers else r.choice([1, 1, 2, 3])
+            return ["c", f] + [self.expr(env, d) for _ in range(n)]
+        if c < 0.60:
+            objs = [["l", r.choice(env["locals"])], ["g", r.choice(env["globals"])]]
+            if env["params"]:
+                objs.append(["p", r.choice(env["params"])])
+            if env.get("method"):
+                objs.append("me")
+            return ["m", r.choice(objs), r.choice(METHODS)] + [self.expr(env, d) for _ in range(r.choice([0, 1, 2]))]
+        if c < 0.66:
+            return ["li"] + [self.expr(env, d) for _ in range(r.choice([0, 1, 2, 3, 5]))]
+        if c < 0.70:
+            n = r.choice([0, 1, 2, 3])
+            out = ["pl"]
+            for _ in range(n):
+                out += [["y", r.choice(SYMS)] if r.random() < 0.8 else self.expr(env, d), self.expr(env, d)]
+            return out
+        if c < 0.84:
+            return self.the_expr(env, d)
+        if c < 0.88:
+            return ["op", r.choice(["legCount", "center", "crop", "fileName", "hasTail"]), self.expr(env, d)]
+        return self.chunk(env, d, self.expr(env, d))
+
+    def the_expr(self, env, d):
+        r = self.rng
+        c = r.random()
+        if c < 0.22:
+            return ["the", "sprite", r.choice(SPRITE_K), self.obj_index(env, d)]
+        if c < 0.38:
+            return ["the", "cast", r.choice(CAST_K), self.obj_index(env, d)]
+        if c < 0.46:
+            return ["the", "field", r.choice(CAST_K), self.expr(env, d) if r.random() < 0.3 else self.index_leaf(env)]
+        if c < 0.52:
+            return ["the", "sound", 1, self.obj_index(env, d)]
+        if c < 0.58:
+            return ["the", "video", r.choice(VIDEO_K), self.obj_index(env, d)]
+        if c < 0.66:
+            return ["the", "menuItem", r.choice([1, 2, 3, 4]), self.obj_index(env, d), self.obj_index(env, d)]
+        if c < 0.72:
+            return ["the", "menu", r.choice([1, 2]), self.obj_index(env, d)]
+        if c < 0.84:
+            return ["the", "numChunks", r.choice([1, 2, 3, 4]), self.expr(env, d)]
+        if c < 0.94:
+            return ["the", "special", r.choice([12, 13, 14, 15]), self.expr(env, d)]
+        return self.leaf(env, "the0")
+
+    def chunk(self, env, d, base):
+        """chunk expression, sometimes a chain (merged into one slice when granularity increases outwards-in)"""
+        r = self.rng
+        kinds = ["char", "word", "item", "line"]
+        n = r.choice([1, 1, 1, 2, 2, 3, 4])
+        e = base
+        ks = [r.choice(kinds) for _ in range(n)]
+        if r.random() < 0.7:
+            ks = sorted(set(ks), key=kinds.index, reverse=True)     # line innermost ... char outermost: one slice
+        for k in ks:
+            a = self.expr(env, min(d, 1)) if r.random() < 0.3 else ["i", r.choice([1, 2, 3, 12, 62])]
+            if a == ["i", 0]:
+                a = ["i", 1]
+            b = ["i", 0] if r.random() < 0.6 else (self.expr(env, min(d, 1)) if r.random() < 0.3 else ["i", r.choice([1, 2, 4, 9])])
+            e = ["ch", k, a, b, e]
+        return e
+
+    # ---- statements (straight-line)
+    def lvalue_var(self, env):
+        r = self.rng
+        ks = ["loc", "loc", "glob", "param"] + (["prop"] if env.get("props") else [])
+        return self.leaf(env, r.choice(ks))
+
+    def stmt(self, env, depth, in_tell=False):
+        r = self.rng
+        c = r.random()
+        e = lambda: self.expr(env, depth)
+        if c < 0.22:
+            return ["set", self.lvalue_var(env), e()]
+        if c < 0.27:
+            return ["set", ["mov", r.choice(MOVIE_NAMES)], e()]
+        if c < 0.40:
+            t = r.random()
+            if t < 0.25:
+                lv = ["the", "sprite", r.choice(SPRITE_K), self.obj_index(env, depth - 1)]
+            elif t < 0.4:
+                lv = ["the", "cast", r.choice(CAST_K), self.obj_index(env, depth - 1)]
+            elif t < 0.5:
+                lv = ["the", "field", r.choice(CAST_K), self.index_leaf(env)]
+            elif t < 0.58:
+                lv = ["the", "video", r.choice(VIDEO_K), self.obj_index(env, depth - 1)]
+            elif t < 0.64:
+                lv = ["the", "sound", 1, self.obj_index(env, depth - 1)]
+            elif t < 0.74:
+                lv = ["the", "menuItem", r.choice([1, 2, 3, 4]), self.obj_index(env, depth - 1), self.obj_index(env, depth - 1)]
+            elif t < 0.86:
+                lv = ["the", "sys", r.choice(SYS_K)]
+            else:
+                lv = ["the", "special", r.randrange(0, 6)]
+            return ["set", lv, e()]
+        if c < 0.44:
+            return ["set", ["op", r.choice(["center", "crop", "legCount"]), self.expr(env, max(0, depth - 1))], e()]
+        if c < 0.56:
+            return self.put_stmt(env, depth)
+        if c < 0.60:
+            return ["del", self.chunk(env, 1, self.put_base(env))]
+        if c < 0.63:
+            return ["hil", self.chunk(env, 1, ["fld", self.index_leaf(env)]) if r.random() < 0.8 else ["fld", self.index_leaf(env)]]
+        if c < 0.88:
+            if in_tell or r.random() < 0.75 or not self.handlers:
+                f = r.choice(EXT_CMDS)
+            else:
+                f = r.choice(self.handlers)
+            n = r.choice([0, 1, 1, 2, 3])
+            return ["call", f] + [self.expr(env, depth) for _ in range(n)]
+        if c < 0.94:
+            objs = [["l", r.choice(env["locals"])], ["g", r.choice(env["globals"])]]
+            if env["params"]:
+                objs.append(["p", r.choice(env["params"])])
+            if env.get("method"):
+                objs += ["me", "me"]
+            return ["mcall", r.choice(objs), r.choice(METHODS)] + [self.expr(env, depth) for _ in range(r.choice([0, 1, 2]))]
+        if c < 0.96:
+            return ["call", "sound", ["y", r.choice(["playFile", "fadeIn", "fadeOut", "stop", "close"])], ["i", r.choice([1, 2])]] + \
+                ([["s", S("Start")]] if r.random() < 0.3 else [])
+        if c < 0.98:
+            return ["call", "go", ["y", r.choice(["loop", "next", "previous"])]]
+        return "exit"
+
+    def put_base(self, env):
+        r = self.rng
+        c = r.random()
+        if c < 0.45:
+            return ["fld", self.index_leaf(env)]
+        if c < 0.8:
+            return ["l", r.choice(env["locals"])]
+        return ["g", r.choice(env["globals"])]
+
+    def put_stmt(self, env, depth):
+        r = self.rng
+        mode = r.choice(["into", "after", "before"])
+        v = self.expr(env, depth)
+        c = r.random()
+        if c < 0.25:
+            return ["put", mode, v, ["fld", self.expr(env, 1) if r.random() < 0.3 else self.index_leaf(env)]]
+        if c < 0.45 and mode != "into":
+            return ["put", mode, v, ["l", r.choice(env["locals"])]]
+        return ["put", mode, v, self.chunk(env, 1, self.put_base(env))]
+
+    def tell_stmt(self, env, depth):
+        r = self.rng
+        body = [self.stmt(env, depth, in_tell=True) for _ in range(r.choice([1, 2, 3]))]
+        body = [b for b in body if not (isinstance(b, list) and b[0] == "mcall")] or [["call", "updateStage"]]
+        return ["tell", ["c", "window", ["s", S(r.choice(["tour", "tool"]))]]] + body
+
+    # ---- handlers / scripts
+    def env_for(self, nparams, method=False):
+        r = self.rng
+        params = r.sample(PARAMS, nparams)
+        return dict(params=params, locals=r.sample(LOCALS, r.choice([1, 2, 3, 5])), globals=r.sample(GLOBALS, 2),
+                    props=list(self.props), method=method)
+
+    def handler(self, name, body_fn, nparams=None):
+        r = self.rng
+        method = self.kind == "factory"
+        env = self.env_for(r.choice([0, 1, 2, 3]) if nparams is None else nparams, method)
+        body = body_fn(env)
+        return ["method" if method else "on", name, list(env["params"])] + body
+
+    def script(self, handlers):
+        fac = "makeStack" if self.kind == "factory" else "-"
+        return ["script", ["factory", fac], ["props"] + self.props, ["globals"] + self.globals_hdr] + handlers
+
+
+def handler_names(n, rng, factory=False):
+    base = ["mnew", "mReset", "mPush", "mShow", "mDo", "mGo", "mRun", "mCalc", "mAux", "mLast"] if factory else \
+        ["exitFrame", "startMovie", "mouseUp", "keyDown", "doWork", "helper", "calc", "fnA", "fnB", "fnC"]
+    out = base[:n]
+    k = 0
+    while len(out) < n:
+        out.append(("m" if factory else "h") + "Extra%d" % k); k += 1
+    return out
+
+
+def name_table(rng, used_hint=()):
+    """an arbitrary prefix of the name table: junk entries, some of the names the script will use (shuffled), duplicates"""
+    pre = []
+    if rng.random() < 0.5:
+        pre += rng.sample(JUNK_NAMES, rng.randrange(0, 6))
+    if rng.random() < 0.6:
+        pool = list(used_hint) + LOCALS + PARAMS + GLOBALS + PROPS + SYMS + EXT_CMDS + EXT_FUNCS + METHODS + KEY_NAMES[:10] + MOVIE_NAMES
+        pre += rng.sample(pool, rng.randrange(0, min(40, len(pool))))
+    if rng.random() < 0.25:
+        pre += ["pad%d" % i for i in range(rng.choice([10, 60, 120]))]
+    if rng.random() < 0.2 and pre:
+        pre += [rng.choice(pre)]
+    rng.shuffle(pre)
+    return pre[:200]
+
+
+# ---- walking trees (features for known-finding matchers)
+
+def walk(t):
+    """yields every sub-list of a tree (pre-order)"""
+    if isinstance(t, list):
+        yield t
+        for x in t:
+            yield from walk(x)
+
+
+def is_index_kept(e):
+    """object index forms the translator keeps verbatim: literal or variable"""
+    return e == "me" or (isinstance(e, list) and e and e[0] in ("i", "s", "f", "l", "p", "g", "r"))
+
+
+OBJ_TABLES = {"sprite": 1, "cast": 1, "sound": 1, "video": 1, "menu": 1, "menuItem": 2}
+
+
+def features(h):
+    """root-cause features of one handler tree (used by the narrow matchers of the open findings)"""
+    f = set()
+    for t in walk(h):
+        if not t or not isinstance(t[0], str):
+            continue
+        tag = t[0]
+        if tag == "the" and t[1] in OBJ_TABLES:
+            if any(not is_index_kept(a) for a in t[3:3 + OBJ_TABLES[t[1]]]):
+                f.add("F20")
+        if tag == "set" and isinstance(t[1], list) and t[1][:2] == ["the", "field"]:
+            f.add("F38")
+            if not is_index_kept(t[1][3]):
+                f.add("F20")
+        if tag == "u" and t[1] == "neg" and isinstance(t[2], list) and t[2][:2] == ["u", "neg"]:
+            f.add("F21")
+        if tag == "b" and t[1] == "starts":
+            f.add("F40")
+        if tag == "tell":
+            if any(isinstance(x, list) and x and x[0] == "tell" for b in t[2:] for x in walk(b)):
+                f.add("F22")
+        if tag == "y" and t[1] in ("loop", "next", "previous", "playFile", "fadeIn", "fadeOut", "stop", "close"):
+            f.add("sym-known")
+        if tag == "c" and len(t) == 2:
+            f.add("call0")
+    return sorted(f)
+
 if __name__ == "__main__":
     import logging; logging.disable(logging.CRITICAL)
     print(json.dumps(validate_scheme(), indent=1))
